@@ -320,7 +320,7 @@ def keyed_constructions(prog, funcs):
     for m in mods:
         for name, v in m.assigns.items():
             if isinstance(v, (ast.Tuple, ast.List)) and v.elts and all(
-                    isinstance(el, (ast.Tuple, ast.List)) and len(el.elts) == 2 and isinstance(el.elts[0], ast.Constant) and isinstance(el.elts[0].value, str)
+                    isinstance(el, (ast.Tuple, ast.List)) and len(el.elts) >= 2 and isinstance(el.elts[0], ast.Constant) and isinstance(el.elts[0].value, str)
                     for el in v.elts):
                 # ('Name', Cls.from_properties) pairs searched in order
                 for el in v.elts:
